@@ -13,4 +13,8 @@ Definition lookup (w : world) (name : string) : option positive := lookup_name w
 Definition all_names (w : world) : list string := names w.
 Definition deny_ok (w : world) (name : string) : bool := check_deny w name.
 Definition wf (w : world) : bool := wf_world w.
-Extraction "globals_model.ml" mk_edge mk_world mk_config run_config reach_list env_names lookup all_names deny_ok wf.
+(* a configuration given as the sequence of options that composes it, and host-assembled modules *)
+Definition run_options (defaults : world) (opts : list opt) : world := apply_config defaults (config_of opts).
+Definition assemble_module (w : world) (n : positive) (members : list (string * positive)) : world := assemble w n members.
+Extraction "globals_model.ml" mk_edge mk_world mk_config run_config reach_list env_names lookup all_names deny_ok wf
+  run_options assemble_module.
